@@ -78,6 +78,14 @@ def wellformed(v):
                                              sym.ref_len(r) <= 1000000))
 
 
+def json_value(v):
+    """a value that can occur in a decoded JSON document: null, bool, int, float, str, list or dict"""
+    t = v.t
+    r = Val.r(t)
+    return z3.Implies(Val.is_VRef(t), z3.And(z3.Or(sym.ref_kind(r) == sym.K_DICT, sym.ref_kind(r) == sym.K_LIST), sym.ref_len(r) >= 0,
+                                             sym.ref_len(r) <= 1000000))
+
+
 def py_repr(v):
     """repr usable inside a replay script"""
     if isinstance(v, Opaque):
